@@ -403,6 +403,31 @@ class Verifier:
             if "incomplete" in s.reason_unknown() and not cfg:
                 break
         res.seconds = round(time.time() - t0, 4)
+        if r == z3.unsat and getattr(self, "recheck", False):
+            # thorough tier: the proof must not depend on one solver configuration -- re-prove with another random seed, the default
+            # instantiation threshold and the other arithmetic solver; a proof that does not reproduce is reported as undecided
+            s2 = z3.Solver()
+            s2.set("auto_config", False)
+            s2.set("smt.mbqi", False)
+            s2.set("smt.random_seed", 7)
+            s2.set("smt.arith.solver", 2)
+            s2.set("timeout", self.timeout_ms)
+            for a in ex.spec.axioms():
+                s2.add(a)
+            for a in smt.seq_axioms():
+                s2.add(a)
+            for f in ex.clock_facts:
+                s2.add(f)
+            for f in o.pc:
+                s2.add(f)
+            s2.add(z3.Not(o.goal))
+            r2 = s2.check()
+            res.info["rechecked"] = str(r2)
+            res.solver = "z3 (two configurations)" if r2 == z3.unsat else "z3"
+            if r2 == z3.sat:
+                r = z3.unknown  # the two configurations disagree: a solver problem, never a verdict
+                res.info["recheck_disagreement"] = True
+            res.seconds = round(time.time() - t0, 4)
         if r == z3.unsat:
             res.status = PROVED
         elif r == z3.sat:
